@@ -37,7 +37,7 @@ try:
         for i, l in enumerate(lines):
             if l.startswith('VIOLATION') and i + 1 < len(lines):
                 detail = lines[i + 1].strip()[:260]; break
-        verdict = {0: 'MISSED', 1: 'CAUGHT', 2: 'inconclusive'}.get(c.returncode, f'rc={c.returncode}')
+        verdict = {0: 'MISSED', 1: 'CAUGHT' if viol else 'ERROR(no VIOLATION line)', 2: 'inconclusive'}.get(c.returncode, f'rc={c.returncode}')
         head = next((l for l in lines if l.startswith('[' + pid)), '')
         print(f'{pid}: {verdict} violations={len(viol)} {head[-40:]}')
         if detail:
